@@ -64,7 +64,7 @@ func (c Case) wire() map[string]any {
 		}
 		return map[string]any{"kind": c.Kind, "id": c.Id, "shapes": shapes, "cpu": c.Cpu, "cut": c.Cut,
 			"attr": c.Attr, "org": c.Org, "scale": c.Scale, "unit": c.Unit, "flavour": c.Flavour,
-			"par": c.Par, "pre": c.Pre, "decoy": c.Decoy}
+			"par": c.Par, "pre": c.Pre, "decoy": c.Decoy, "add": c.Add}
 	case "prim":
 		return map[string]any{"kind": c.Kind, "id": c.Id, "prim": c.Prim, "rows": c.Rows, "cols": c.Cols,
 			"sides": c.Sides, "d": c.D, "uv": c.UV, "chain": c.Chain, "scale": c.Scale,
@@ -229,6 +229,9 @@ func randomShapeCase(rng *rand.Rand, id, maxCells int) Case {
 			c.Cut = -milli(1/cpu) * c.Shapes[0].S / 1000
 		}
 	}
+	// entry point storing the union: sequential, AddFieldParallel, AddFieldParallel2 (a fixed
+	// function of the case number: the shapes of a seed stay what they were)
+	c.Add = (id/2 + id/7) % 3
 	setFrame(&c)
 	return c
 }
